@@ -80,7 +80,8 @@ def to_jsonable(e):
                 "fromb64": "fn::fromBase64"}[k]
         return OrderedObj([(name, to_jsonable(e[1]))])
     if k == "secret":
-        return OrderedObj([("fn::secret", esc_dollar(e[1]))])
+        # the plaintext of a secret is literal text (no $$ un-escaping since fix ed5aa3c); "${" must not occur in it
+        return OrderedObj([("fn::secret", e[1])])
     if k == "cipher":
         return OrderedObj([("fn::secret", OrderedObj([("ciphertext", e[1])]))])
     if k == "open":
